@@ -10,7 +10,7 @@
    far gives an [MR]-related result for the whole signatures.  A second walk reads the
    failing step off an error. *)
 From Sigtools.Model Require Import Base Bind Roles Algebra.
-From Sigtools.Proofs Require Import SmallModel Basics MaskLaws MaskExact MergeNeutral MergeIdem Annot ValidateSpec
+From Sigtools.Proofs Require Import SmallModel Basics MaskLaws MaskExact MergeNeutral MergeNeutralL MergeIdem Annot ValidateSpec
   RcValid FoldLaw RcValidN MergeExactSem.
 From Coq Require Import Lia Permutation.
 
@@ -852,3 +852,391 @@ Proof.
   intros HK. rewrite accepts_acc4, (positional_flatten so HK), (kwonly_flatten so HK), (has_vp_flatten so HK),
     (has_vk_flatten so HK). reflexivity.
 Qed.
+
+Lemma flatten_PK so p : kinds_ok so -> In p (flatten so) -> pkind p = PK -> In p (posl so).
+Proof.
+  intros (H1 & H2 & H3 & H4 & H5) Hp Kp. unfold flatten in Hp. unfold posl. rewrite Forall_forall in H1, H4.
+  apply in_app_or in Hp. destruct Hp as [Hp|Hp]; [apply in_or_app; left; exact Hp|].
+  apply in_app_or in Hp. destruct Hp as [Hp|Hp]; [apply in_or_app; right; exact Hp|]. exfalso.
+  apply in_app_or in Hp. destruct Hp as [Hp|Hp].
+  - destruct (varargs so) as [v|] eqn:E; [|destruct Hp]. destruct Hp as [<-|[]]. rewrite (H3 v eq_refl) in Kp. discriminate.
+  - apply in_app_or in Hp. destruct Hp as [Hp|Hp]; [rewrite (H4 p Hp) in Kp; discriminate|].
+    destruct (varkwargs so) as [v|] eqn:E; [|destruct Hp]. destruct Hp as [<-|[]]. rewrite (H5 v eq_refl) in Kp. discriminate.
+Qed.
+
+Lemma flatten_KO so p : kinds_ok so -> In p (flatten so) -> pkind p = KO -> In p (kwoargs so).
+Proof.
+  intros (H1 & H2 & H3 & H4 & H5) Hp Kp. unfold flatten in Hp. rewrite Forall_forall in H1, H2.
+  apply in_app_or in Hp. destruct Hp as [Hp|Hp]; [rewrite (H1 p Hp) in Kp; discriminate|].
+  apply in_app_or in Hp. destruct Hp as [Hp|Hp]; [rewrite (H2 p Hp) in Kp; discriminate|].
+  apply in_app_or in Hp. destruct Hp as [Hp|Hp].
+  - destruct (varargs so) as [v|] eqn:E; [|destruct Hp]. destruct Hp as [<-|[]]. rewrite (H3 v eq_refl) in Kp. discriminate.
+  - apply in_app_or in Hp. destruct Hp as [Hp|Hp]; [exact Hp|].
+    destruct (varkwargs so) as [v|] eqn:E; [|destruct Hp]. destruct Hp as [<-|[]]. rewrite (H5 v eq_refl) in Kp. discriminate.
+Qed.
+
+Lemma named_in_flatten so p : kinds_ok so -> In p (posl so ++ kwoargs so) -> In p (flatten so).
+Proof.
+  intros HK Hp. apply in_app_or in Hp. destruct Hp as [Hp|Hp]; [apply (in_PA so HK p Hp)|apply (in_kwo_l so HK p Hp)].
+Qed.
+
+(* ================================================================== *)
+(* 5. C09_exact on classified signatures                               *)
+
+Section Exact.
+Variables l r : sorted.
+Hypothesis HKl : kinds_ok l.
+Hypothesis HKr : kinds_ok r.
+Hypothesis HNl : NoDup (names_of (flatten l)).
+Hypothesis HNr : NoDup (names_of (flatten r)).
+Hypothesis HR1 : forall p q, In p (flatten l) -> In q (flatten r) -> pname p = pname q -> pkind p = pkind q.
+Hypothesis HR2 : pos_agree (posl l) (posl r).
+Hypothesis HDl : dsuf (posl l).
+Hypothesis HDr : dsuf (posl r).
+Hypothesis HAL : aligned_lists (posl l) (posl r) = true.
+
+Theorem merger_exact_ok res c :
+  merger l r = Ok res ->
+  noncolliding c (flatten res) [flatten l; flatten r] = true ->
+  accepts (flatten res) c = accepts (flatten l) c && accepts (flatten r) c.
+Proof.
+  intros E HN. destruct (merger_kinds l r res HKl HKr E) as [HKres _].
+  rewrite (accepts_flatten res c HKres), (accepts_flatten l c HKl), (accepts_flatten r c HKr).
+  destruct (merger_stars l r res E) as [V1 V2]. rewrite V1, V2.
+  apply (MR_exact _ _ _ _ _ _ _ _ _ _ (merger_MR l r HKl HKr HNl HNr HR1 HR2 HDl HDr HAL res E)).
+  intros k Hk. unfold noncolliding in HN. rewrite forallb_forall in HN. specialize (HN k Hk).
+  apply orb_true_iff in HN. destruct HN as [HN|HN].
+  - left. unfold kwpassable_name in HN. apply existsb_exists in HN. destruct HN as [p [Hp Hq]].
+    apply andb_true_iff in Hq. destruct Hq as [Q1 Q2]. apply N.eqb_eq in Q2. subst k.
+    unfold is_kwpassable in Q1. destruct (pkind p) eqn:Kp; try discriminate.
+    + left. exists p. split; [apply (flatten_PK res p HKres Hp Kp)|]. split; [apply ispk_PK; exact Kp|reflexivity].
+    + right. apply in_map. apply (flatten_KO res p HKres Hp Kp).
+  - right. apply negb_true_iff in HN. apply mem_false_In in HN. unfold all_names in HN. cbn [flat_map] in HN.
+    rewrite app_nil_r in HN. split; intros X; apply HN; apply in_or_app; [left|right];
+      apply in_map_iff in X; destruct X as [p [Ep Hp]]; rewrite <- Ep; apply in_map.
+    + apply (named_in_flatten l p HKl Hp).
+    + apply (named_in_flatten r p HKr Hp).
+Qed.
+End Exact.
+
+(* ================================================================== *)
+(* 6. reading the failing step off an error                            *)
+
+Lemma bind_err {A B} (x : res A) (f : A -> res B) e :
+  bind x f = Err e -> x = Err e \/ exists a, x = Ok a /\ f a = Err e.
+Proof. destruct x as [a|e']; cbn; intros H; [right; eauto|left; inversion H; reflexivity]. Qed.
+
+Section EWalk.
+Variables l r : sorted.
+Let PA := posargs l ++ pokargs l.
+Let PB := posargs r ++ pokargs r.
+Let KA := kwoargs l.
+Let KB := kwoargs r.
+Let vaA := isSome (varargs l).
+Let vkA := isSome (varkwargs l).
+Let vaB := isSome (varargs r).
+Let vkB := isSome (varkwargs r).
+Hypothesis HKl : kinds_ok l.
+Hypothesis HKr : kinds_ok r.
+Hypothesis HNl : NoDup (names_of (flatten l)).
+Hypothesis HNr : NoDup (names_of (flatten r)).
+Hypothesis HR1 : forall p q, In p (flatten l) -> In q (flatten r) -> pname p = pname q -> pkind p = pkind q.
+
+(* an unbalanced required parameter of side s the other side can take neither way *)
+Definition FailP (s : side) : Prop :=
+  match s with
+  | L => exists t i, nth_error PA i = Some t /\ (length PB <= i)%nat /\ has_def t = false /\
+                     vaB = false /\ (ispk t = false \/ vkB = false)
+  | R => exists t i, nth_error PB i = Some t /\ (length PA <= i)%nat /\ has_def t = false /\
+                     vaA = false /\ (ispk t = false \/ vkA = false)
+  end.
+
+Lemma head_index s st e x :
+  NIs l r s st (e :: x) [] ->
+  match s with
+  | L => exists i, nth_error PA i = Some e /\ (length PB <= i)%nat
+  | R => exists i, nth_error PB i = Some e /\ (length PA <= i)%nat
+  end.
+Proof.
+  destruct s; cbn [NIs]; intros [].
+  - destruct n_sufl as [pre E]. exists (length pre). fold PA in E. rewrite E. split; [apply nth_suffix|].
+    destruct n_lockl as [X|X]; [discriminate|]. fold PA PB in X. rewrite E, app_length in X. cbn [length] in X. lia.
+  - destruct n_sufr as [pre E]. exists (length pre). fold PB in E. rewrite E. split; [apply nth_suffix|].
+    destruct n_lockr as [X|X]; [discriminate|]. fold PA PB in X. rewrite E, app_length in X. cbn [length] in X. lia.
+Qed.
+
+Lemma E_unb_pos1 s e x y st err :
+  pkind e = PO -> NIs l r s st (e :: x) y -> unb_pos1 l r s e y st = Err err -> FailP s.
+Proof.
+  intros He HN E. unfold unb_pos1 in E. destruct y as [|o c]; [|discriminate].
+  destruct (isSome (varargs (other l r s))) eqn:G; [discriminate|].
+  destruct (has_def e) eqn:De; cbn [negb] in E; [discriminate|].
+  pose proof (head_index s st e x HN) as HI. destruct s; cbn [other] in G; destruct HI as [i [Hi Hl]];
+    exists e, i; repeat split; auto; left; apply ispk_PO; exact He.
+Qed.
+
+Lemma E_unb_pos_all s ps : forall x y st err,
+  m_pok st = [] -> Forall isPO ps -> NIs l r s st (ps ++ x) y ->
+  unb_pos_all l r s ps y st = Err err -> FailP s.
+Proof.
+  induction ps as [|p ps IH]; intros x y st err Hk HF HN E; cbn [unb_pos_all] in E; [discriminate|].
+  apply bind_err in E. destruct E as [E|[[st1 y1] [E1 E2]]].
+  - exact (E_unb_pos1 s p (ps ++ x) y st err (Forall_inv HF) HN E).
+  - cbn [fst snd] in E2.
+    pose proof (N_unb_pos1 l r s p (ps ++ x) y st st1 y1 Hk HN E1) as HN1.
+    assert (Hk1 : m_pok st1 = []).
+    { clear -Hk E1. unfold unb_pos1 in E1. destruct y as [|o c].
+      - destruct (isSome (varargs (other l r s))); [inversion E1; subst; destruct s; exact Hk|].
+        destruct (negb (has_def p)); [discriminate|]. inversion E1; subst. exact Hk.
+      - inversion E1; subst. destruct (N.eqb (pname o) (pname p)); destruct s; exact Hk. }
+    exact (IH x y1 st1 err Hk1 (Forall_inv_tail HF) HN1 E2).
+Qed.
+
+Lemma E_zip_pos lp : forall rp il ir st err,
+  m_pok st = [] -> Forall isPO lp -> Forall isPO rp -> NIc l r st (lp ++ il) (rp ++ ir) ->
+  zip_pos l r lp rp il ir st = Err err -> FailP L \/ FailP R.
+Proof.
+  induction lp as [|a lp IH]; intros rp il ir st err Hk Hl Hr HN E.
+  - cbn [zip_pos] in E. apply bind_err in E. destruct E as [E|[[st1 y1] [_ E2]]]; [|discriminate].
+    right. exact (E_unb_pos_all R rp ir il st err Hk Hr HN E).
+  - destruct rp as [|b rp]; cbn [zip_pos] in E.
+    + apply bind_err in E. destruct E as [E|[[st1 y1] [_ E2]]]; [|discriminate].
+      left. exact (E_unb_pos_all L (a :: lp) il ir st err Hk Hl HN E).
+    + eapply IH; [| | | |exact E]; [destruct (N.eqb (pname a) (pname b)); exact Hk|exact (Forall_inv_tail Hl)|exact (Forall_inv_tail Hr)|].
+      eapply (NIs_pair l r L); [exact HN| | ]; destruct (N.eqb (pname a) (pname b)); prj Hk.
+Qed.
+
+Lemma E_unb_pok1 s e x st err :
+  pkind e = PK -> NIs l r s st (e :: x) [] -> unb_pok1 l r s e st = Err err -> FailP s.
+Proof.
+  intros He HN E. unfold unb_pok1 in E.
+  destruct (find_param (pname e) (unm st match s with L => R | R => L end)); [discriminate|].
+  destruct (isSome (varargs (other l r s))) eqn:Gva; destruct (isSome (varkwargs (other l r s))) eqn:Gvk; cbn [andb] in E;
+    try discriminate.
+  destruct (has_def e) eqn:De; cbn [negb] in E; [discriminate|].
+  pose proof (head_index s st e x HN) as HI. destruct s; cbn [other] in Gva, Gvk; destruct HI as [i [Hi Hl]];
+    exists e, i; repeat split; auto.
+Qed.
+
+Lemma c_pk_x : forall p q, In p PA -> In q (kwoargs r) -> pname p <> pname q.
+Proof.
+  intros p q Hp Hq E. destruct (in_PA l HKl p Hp) as [Fp Kp]. destruct (in_kwo_l r HKr q Hq) as [Fq Kq].
+  pose proof (HR1 p q Fp Fq E) as X. rewrite Kq in X. destruct Kp; congruence.
+Qed.
+Lemma c_kp_x : forall p q, In p (kwoargs l) -> In q PB -> pname p = pname q -> varargs l = None.
+Proof.
+  intros p q Hp Hq E. exfalso. destruct (in_PA r HKr q Hq) as [Fq Kq]. destruct (in_kwo_l l HKl p Hp) as [Fp Kp].
+  pose proof (HR1 p q Fp Fq E) as X. rewrite Kp in X. destruct Kq; congruence.
+Qed.
+
+Lemma E_unb_pok_all s ps : forall st err,
+  KI l r st -> Forall isPK ps -> incl ps (pokargs (my l r s)) -> NIs l r s st ps [] ->
+  unb_pok_all l r s ps st = Err err -> FailP s.
+Proof.
+  induction ps as [|p ps IH]; intros st err HK HF Hi HN E; cbn [unb_pok_all] in E; [discriminate|].
+  apply bind_err in E. destruct E as [E|[st1 [E1 E2]]].
+  - exact (E_unb_pok1 s p ps st err (Forall_inv HF) HN E).
+  - assert (Hp : In p (pokargs (my l r s))) by (apply Hi; left; reflexivity).
+    apply (IH st1 err); [exact (K_unb_pok1 l r s p st st1 HK (Forall_inv HF) E1)|exact (Forall_inv_tail HF)| | |exact E2].
+    + intros z Hz. apply Hi. right. exact Hz.
+    + exact (N_unb_pok1 l r c_pk_x c_kp_x s p ps st st1 HK Hp HN E1).
+Qed.
+
+Lemma E_zip_pok il : forall ir st err,
+  KI l r st -> Forall isPK il -> Forall isPK ir -> incl il (pokargs l) -> incl ir (pokargs r) ->
+  NIc l r st il ir -> zip_pok l r il ir st = Err err -> FailP L \/ FailP R.
+Proof.
+  induction il as [|a il IH]; intros ir st err HK Hl Hr Il Ir HN E.
+  - cbn [zip_pok] in E. right. exact (E_unb_pok_all R ir st err HK Hr Ir HN E).
+  - destruct ir as [|b ir]; cbn [zip_pok] in E.
+    + left. exact (E_unb_pok_all L (a :: il) st err HK Hl Il HN E).
+    + eapply IH; [|exact (Forall_inv_tail Hl)|exact (Forall_inv_tail Hr)| | | |exact E].
+      * destruct (N.eqb (pname a) (pname b)); unfold KI;
+          cbn [m_pos m_pok m_kwo m_lunm m_runm set_pos set_pok set_kwo set_src add_src1 add_src2];
+          [apply KIc_pok_snoc|apply KIc_pok_po]; try exact HK. exact (Forall_inv Hl).
+      * intros z Hz. apply Il. right. exact Hz.
+      * intros z Hz. apply Ir. right. exact Hz.
+      * eapply (NIs_pair l r L); [exact HN| | ]; destruct (N.eqb (pname a) (pname b)); prj0.
+Qed.
+End EWalk.
+
+Section ExactErr.
+Variables l r : sorted.
+Hypothesis HKl : kinds_ok l.
+Hypothesis HKr : kinds_ok r.
+Hypothesis HNl : NoDup (names_of (flatten l)).
+Hypothesis HNr : NoDup (names_of (flatten r)).
+Hypothesis HR1 : forall p q, In p (flatten l) -> In q (flatten r) -> pname p = pname q -> pkind p = pkind q.
+Hypothesis HR2 : pos_agree (posl l) (posl r).
+Hypothesis HDl : dsuf (posl l).
+Hypothesis HDr : dsuf (posl r).
+
+Lemma HR1' : forall p q, In p (flatten r) -> In q (flatten l) -> pname p = pname q -> pkind p = pkind q.
+Proof. intros p q Hp Hq E. symmetry. apply HR1; auto. Qed.
+
+Definition A4 (n : nat) (ks : list name) : bool :=
+  acc4 (posl l) (kwoargs l) (isSome (varargs l)) (isSome (varkwargs l)) n ks.
+Definition B4 (n : nat) (ks : list name) : bool :=
+  acc4 (posl r) (kwoargs r) (isSome (varargs r)) (isSome (varkwargs r)) n ks.
+
+Lemma failP_L n ks : FailP l r L -> A4 n ks && B4 n ks = false.
+Proof.
+  intros [t [i (Hi & Hl & Hd & Hva & Hk)]]. unfold A4, B4. rewrite Hva.
+  apply (no_call_pos _ _ _ _ _ _ _ t i n ks Hi Hl Hd).
+  destruct Hk as [Hk|Hk]; [left; exact Hk|right]. split; [exact Hk|].
+  assert (Ht : In t (posargs l ++ pokargs l)) by (eapply nth_error_In; exact Hi).
+  apply notin_app_names; [|apply (cross_l l r HKl HKr HR1 t Ht)].
+  intros X. apply in_map_iff in X. destruct X as [b [Eb Hb]]. apply In_nth_error in Hb. destruct Hb as [j Hj].
+  assert (i = j) by (apply (HR2 i j t b Hi Hj); congruence). subst j.
+  assert (j' : (i < length (posl r))%nat) by (apply nth_error_Some; unfold posl; congruence). unfold posl in j'. lia.
+Qed.
+
+Lemma failP_R n ks : FailP l r R -> A4 n ks && B4 n ks = false.
+Proof.
+  intros [t [i (Hi & Hl & Hd & Hva & Hk)]]. rewrite andb_comm. unfold A4, B4. rewrite Hva.
+  apply (no_call_pos _ _ _ _ _ _ _ t i n ks Hi Hl Hd).
+  destruct Hk as [Hk|Hk]; [left; exact Hk|right]. split; [exact Hk|].
+  assert (Ht : In t (posargs r ++ pokargs r)) by (eapply nth_error_In; exact Hi).
+  apply notin_app_names; [|apply (cross_l r l HKr HKl HR1' t Ht)].
+  intros X. apply in_map_iff in X. destruct X as [b [Eb Hb]]. apply In_nth_error in Hb. destruct Hb as [j Hj].
+  assert (j = i) by (apply (HR2 j i b t Hj Hi); congruence). subst j.
+  assert (j' : (i < length (posl l))%nat) by (apply nth_error_Some; unfold posl; congruence). unfold posl in j'. lia.
+Qed.
+
+Lemma forallb_false_ex {A} (f : A -> bool) xs : forallb f xs = false -> exists x, In x xs /\ f x = false.
+Proof.
+  induction xs as [|x xs IH]; cbn [forallb]; [discriminate|]. destruct (f x) eqn:E.
+  - intros H. destruct (IH H) as [y [Hy Fy]]. exists y. split; [right; exact Hy|exact Fy].
+  - intros _. exists x. split; [left; reflexivity|exact E].
+Qed.
+
+Lemma unmatched_err s st e :
+  unmatched_kwo l r s st = Err e ->
+  isSome (varkwargs (other l r s)) = false /\ exists q, In q (unm st s) /\ has_def q = false.
+Proof.
+  unfold unmatched_kwo. destruct (unm st s) as [|q u]; [discriminate|].
+  destruct (isSome (varkwargs (other l r s))); [discriminate|].
+  destruct (forallb has_def (q :: u)) eqn:F; [discriminate|]. intros _. split; [reflexivity|].
+  apply forallb_false_ex. exact F.
+Qed.
+
+Theorem merger_exact_err e n ks :
+  merger l r = Err e -> A4 n ks && B4 n ks = false.
+Proof.
+  unfold merger. fold st0. fold (st2 l r). intros E.
+  destruct (AI_st2 l r HKl HKr HNl HNr HR1 HR2 HDl HDr) as [A2 P2]. pose proof (KI_st2 l r HKl) as K2.
+  destruct (NI_st2 l r) as [N2 _]. destruct (st2_fields l r HNl) as (M2 & LU2 & RU2).
+  pose proof HKl as (L1 & L2 & _). pose proof HKr as (R1 & R2 & _).
+  apply bind_err in E. destruct E as [E|[[[st3 il] ir] [E3 E]]].
+  { destruct (E_zip_pos l r _ _ _ _ _ e P2 L1 R1 N2 E); [apply failP_L|apply failP_R]; assumption. }
+  destruct (W_zip_pos l r (posargs l) (posargs r) (pokargs l) (pokargs r) _ st3 il ir P2 A2 E3) as [A3 P3].
+  destruct (K_zip_pos l r (posargs l) (posargs r) (pokargs l) (pokargs r) _ st3 il ir K2 L1 R1 E3) as (K3 & Il & Ir).
+  pose proof (N_zip_pos l r (posargs l) (posargs r) (pokargs l) (pokargs r) _ st3 il ir P2 N2 E3) as N3.
+  pose proof (U_zip_pos _ _ _ _ _ _ _ _ _ _ E3) as [U3l U3r].
+  assert (Hil : Forall isPK il) by (apply Forall_forall; intros q Hq; rewrite Forall_forall in L2; apply L2, Il, Hq).
+  assert (Hir : Forall isPK ir) by (apply Forall_forall; intros q Hq; rewrite Forall_forall in R2; apply R2, Ir, Hq).
+  apply bind_err in E. destruct E as [E|[st4 [E4 E]]].
+  { destruct (E_zip_pok l r HKl HKr HR1 il ir st3 e K3 Hil Hir Il Ir N3 E); [apply failP_L|apply failP_R]; assumption. }
+  pose proof (W_zip_pok l r il ir st3 st4 A3 E4) as A4'. pose proof (K_zip_pok l r il ir st3 st4 K3 Hil Hir E4) as K4.
+  pose proof (U_zip_pok l r HKl HKr HR1 il ir st3 st4 Hil Hir K3 A3 E4) as [U4l U4r].
+  assert (LU4 : m_lunm st4 = unmat r (kwoargs l)) by congruence.
+  assert (RU4 : m_runm st4 = r_unmatched l r) by congruence.
+  apply bind_err in E. destruct E as [E|[st5 [E5 E]]].
+  { (* a required keyword-only parameter of l that r cannot take *)
+    destruct (unmatched_err L st4 e E) as [Hv [q [Hq Dq]]]. cbn [other unm] in Hv, Hq. rewrite LU4 in Hq.
+    apply in_unmat in Hq. destruct Hq as [Hq Fq]. unfold A4, B4. rewrite Hv.
+    apply (no_call_kwo _ _ _ _ _ _ _ q n ks Hq Dq).
+    apply notin_app_names; [|apply find_param_none; exact Fq].
+    intros X. apply in_map_iff in X. destruct X as [b [Eb Hb]].
+    apply (cross_l r l HKr HKl HR1' b Hb). rewrite Eb. apply in_map. exact Hq. }
+  apply bind_err in E. destruct E as [E|[st6 [E6 E]]].
+  { (* a required keyword-only parameter of r that l cannot take *)
+    destruct (unmatched_fine l r L st4 st5 E5) as (_ & _ & _ & F5d & _).
+    destruct (unmatched_err R st5 e E) as [Hv [q [Hq Dq]]]. cbn [other unm] in Hv, Hq. rewrite F5d, RU4 in Hq.
+    apply in_runm in Hq. destruct Hq as [Hq Fq]. rewrite andb_comm. unfold A4, B4. rewrite Hv.
+    apply (no_call_kwo _ _ _ _ _ _ _ q n ks Hq Dq).
+    apply notin_app_names; [|apply find_param_none; exact Fq].
+    intros X. apply in_map_iff in X. destruct X as [b [Eb Hb]].
+    apply (cross_l l r HKl HKr HR1 b Hb). rewrite Eb. apply in_map. exact Hq. }
+  exfalso.
+  destruct (add_star l r (m_xva_l (normalise_pok st6)) (m_xva_r (normalise_pok st6)) (varargs l) (varargs r)
+                     (normalise_pok st6)) as [va st8].
+  destruct (add_star l r (m_xvk_l st8) (m_xvk_r st8) (varkwargs l) (varkwargs r) st8) as [vk st9].
+  discriminate.
+Qed.
+End ExactErr.
+
+(* ================================================================== *)
+(* 7. C09_exact                                                        *)
+
+Lemma aligned_of_name_aligned a b :
+  valid_sig (params a) = true -> valid_sig (params b) = true ->
+  name_aligned (params a) (params b) = true ->
+  aligned_lists (posl (sort_params a)) (posl (sort_params b)) = true.
+Proof.
+  intros Va Vb H. unfold posl.
+  rewrite <- (positional_flatten _ (sort_params_kinds a)), <- (positional_flatten _ (sort_params_kinds b)).
+  rewrite (sort_flatten_roundtrip a Va), (sort_flatten_roundtrip b Vb). exact H.
+Qed.
+
+Theorem merge_exact a b :
+  valid_sig (params a) = true -> valid_sig (params b) = true ->
+  name_aligned (params a) (params b) = true ->
+  role_consistent [params a; params b] = true ->
+  match merge [a; b] with
+  | Ok r => forall c, noncolliding c (params r) [params a; params b] = true ->
+                      accepts (params r) c = accepts (params a) c && accepts (params b) c
+  | Err e => e = Incompatible /\ forall c, accepts (params a) c && accepts (params b) c = false
+  end.
+Proof.
+  intros Va Vb Hal Hrc. pose proof (rc_pair_agree _ _ Hrc) as Hr.
+  pose proof (sort_flatten_roundtrip a Va) as Fa. pose proof (sort_flatten_roundtrip b Vb) as Fb.
+  pose proof (sort_params_kinds a) as Ka. pose proof (sort_params_kinds b) as Kb.
+  assert (Na : NoDup (names_of (flatten (sort_params a)))) by (rewrite Fa; apply validate_nodup; apply (valid_sig_parts _ Va)).
+  assert (Nb : NoDup (names_of (flatten (sort_params b)))) by (rewrite Fb; apply validate_nodup; apply (valid_sig_parts _ Vb)).
+  pose proof (orig_kinds a b Va Vb Hr) as H1. pose proof (orig_pos a b Va Vb Hr) as H2.
+  pose proof (dsuf_of_valid a Va) as Da. pose proof (dsuf_of_valid b Vb) as Db.
+  pose proof (aligned_of_name_aligned a b Va Vb Hal) as HA.
+  pose proof (merge_rc_ok_iff_merger a b Va Vb Hrc) as HM.
+  destruct (merger (sort_params a) (sort_params b)) as [acc|e] eqn:E.
+  - rewrite HM. cbn [params]. intros c HN. rewrite <- Fa, <- Fb at 1. rewrite <- Fa, <- Fb in HN.
+    rewrite (merger_exact_ok _ _ Ka Kb Na Nb H1 H2 Da Db HA acc c E HN). rewrite Fa, Fb. reflexivity.
+  - rewrite HM. split; [reflexivity|]. intros c.
+    rewrite <- Fa, <- Fb. rewrite (accepts_flatten _ c Ka), (accepts_flatten _ c Kb).
+    exact (merger_exact_err _ _ Ka Kb Na Nb H1 H2 Da Db e (npos c) (kws c) E).
+Qed.
+
+(* the form of Props/C09.v (C09_exact_pairs_U2) without the universe bound *)
+Corollary merge_exact_mk (a b : list param) :
+  valid_sig a = true -> valid_sig b = true ->
+  name_aligned a b = true -> role_consistent [a; b] = true ->
+  match merge [mkSig a None UEmpty [] []; mkSig b None UEmpty [] []] with
+  | Ok r => forall c, noncolliding c (params r) [a; b] = true ->
+                      accepts (params r) c = accepts a c && accepts b c
+  | Err e => e = Incompatible /\ forall c, accepts a c && accepts b c = false
+  end.
+Proof. intros Va Vb Hal Hrc. exact (merge_exact (mkSig a None UEmpty [] []) (mkSig b None UEmpty [] []) Va Vb Hal Hrc). Qed.
+
+(* the hypotheses are satisfiable on non-trivial inputs, in all three outcomes
+   (names a=1 b=2 c=3 d=4 args=9 kwargs=10) *)
+Example merge_exact_example :
+  let a := mkSig [mkParam 1 PK None None UEmpty; mkParam 2 PK (Some 1) None UEmpty; mkParam 3 PK (Some 1) None UEmpty;
+                  mkParam 4 KO None None UEmpty] None UEmpty [] [] in
+  let b := mkSig [mkParam 1 PK None None UEmpty; mkParam 2 PK None None UEmpty; mkParam 10 VK None None UEmpty]
+                 None UEmpty [] [] in
+  let c := mkSig [mkParam 1 PK None None UEmpty] None UEmpty [] [] in
+  valid_sig (params a) = true /\ valid_sig (params b) = true /\ valid_sig (params c) = true /\
+  name_aligned (params a) (params b) = true /\ role_consistent [params a; params b] = true /\
+  name_aligned (params a) (params c) = true /\ role_consistent [params a; params c] = true /\
+  (exists r, merge [a; b] = Ok r /\
+     params r = [mkParam 1 PK None None UEmpty; mkParam 2 PK None None UEmpty;
+                 mkParam 3 KO (Some 1) None UEmpty; mkParam 4 KO None None UEmpty]) /\
+  merge [a; c] = Err Incompatible.
+Proof. cbv zeta. repeat split; try (vm_compute; reflexivity). eexists. split; vm_compute; reflexivity. Qed.
+
+Print Assumptions merger_MR.
+Print Assumptions merger_exact_ok.
+Print Assumptions merger_exact_err.
+Print Assumptions merge_exact.
+Print Assumptions merge_exact_mk.
+Print Assumptions merge_exact_example.
